@@ -11,7 +11,7 @@ import warnings
 from fractions import Fraction
 
 from harness.common import Run, SRC, coq_Q, coq_Z, coq_bool, coq_list, coq_string, frac
-from harness.translate import pysym, pyvalid
+from harness.translate import c18_gen, pysym, pyvalid
 from harness.translate.pysym import Emit, Untranslatable, definition, dotted
 
 META = dict(
@@ -45,11 +45,13 @@ OBLIGATIONS = [
     "C18_visits_increasing", "C18_visits_terminate", "C18_visits_diverge_refuted",
     "C18_tie_rows", "C18_tie_keys", "C18_tie_final", "C18_tie_precision", "C18_tie_precision_init", "C18_tie_beta", "C18_tie_adj_var",
     "C18_tie_constants", "C18_tie_options", "C18_tie_order",
+    "C18_ages_wellformed_meaning", "C18_generation_random", "C18_generation_table", "C18_table_row_order_irrelevant",
+    "C18_generation_age_units", "C18_draws_random_design_only_refuted", "C18_tie_generation",
 ]
 
 HEADER = """(* REGENERATED on every run from $VERIF_REPO/src/leaspy by harness/props/c18.py — do not edit *)
 From Coq Require Import ZArith QArith Qround Bool List String.
-From Leaspy Require Import Base.QAux Api.Simulate.
+From Leaspy Require Import Base.QAux Api.Simulate Api.SimulateGen.
 Import ListNotations.
 """
 
@@ -308,6 +310,8 @@ def translate(run: Run) -> bool:
         # _check_features: known shape (its decision is tied by exhaustive correspondence)
         if _shape(_body(M["_check_features"])) != CHECK_FEATURES_SHAPE:
             raise Untranslatable("_check_features shape:\n" + "\n".join(_shape(_body(M["_check_features"]))))
+        # the generation statements (draws of the individual parameters, visit ages, pipeline order)
+        out.append(c18_gen.translate_generation(M, base["_run"]))
         run.gen("GenC18", "\n".join(out))
         run.trusted.append("translator harness/translate/pyvalid.py + pysym.py + harness/props/c18.py (python ast -> requirement rows, key lists, "
                            "constants, beta parameters, precision loop and the value bound before it, statement order of simulate.py / base.py)")
@@ -515,6 +519,7 @@ class Recorder:
         import leaspy.algo.simulate.simulate as sim_mod
         self.np, self.sim_mod, self.model = np, sim_mod, model
         self.normal_calls = []      # (size, result)
+        self.normal_args = []       # (loc, scale) of the same calls
         self.rvs = []               # dict(mu, var, adj, a, b, y) per feature
         self.estimate_out = None
         self.timepoints = None
@@ -533,6 +538,7 @@ class Recorder:
                 if rec.n_scalar > rec.scalar_budget:
                     raise Recorder.Budget(f"more than {rec.scalar_budget} scalar draws")
             rec.normal_calls.append((size, r))
+            rec.normal_args.append((k.get("loc", a[0] if len(a) > 0 else 0.0), k.get("scale", a[1] if len(a) > 1 else 1.0)))
             return r
 
         class BetaProxy:
@@ -1008,11 +1014,82 @@ LOOP_CHECKER = ("(fun c => match c with (t0, fu, steps, ages) => match visit_age
                 "&& match steps with [] => true | _ => match visit_ages t0 fu (removelast steps) with None => true | Some _ => false end end end)")
 
 
+def hexf(x) -> str:
+    x = float(x)
+    if x != x:
+        return "nan%float"
+    if x in (float("inf"), float("-inf")):
+        return "infinity%float" if x > 0 else "neg_infinity%float"
+    return f"({x.hex()})%float"
+
+
+HDR_GEN = ("From Coq Require Import ZArith QArith Bool List String PrimFloat.\n"
+           "From Leaspy Require Import Base.QAux Api.Simulate Api.SimulateGen Api.SimulateGenFloat.\n"
+           "From LeaspyGen Require Import GenC18.\nImport ListNotations.\n")
+GEN_CASE_T = "model_shape * design * valuation * list (draw float) * observed"
+GEN_CHECKER = ("(fun c => match c with (m, d, v, tp, ob) => check_generation gen_rounding_options gen_precision_init gen_default_spacing "
+               "gen_prog_src m d v tp ob end)")
+
+
+def requested_ids(d):
+    if d["visit_type"] == "random":
+        return [str(i) for i in range(d["params"]["patient_number"][1])]
+    out = []
+    for i, _ in d["params"]["df_visits"][3]:
+        if i not in out:
+            out.append(i)
+    return out
+
+
+def generation_case(d, shape, model, res, rec, limit=700):
+    """One completed call as a case of SimulateGenFloat.check_generation: the design, the values the symbolic parameters of the draws
+    stand for, the TAPE (values returned by the successive numpy.random.normal calls, binary64 bits) and what the implementation
+    produced (requested ages, returned ages, the calls with their arguments)."""
+    import numpy as np
+    if rec.timepoints is None or len(rec.normal_args) != len(rec.normal_calls):
+        return "unrecorded"
+    if sum(1 if s is None else int(s) for s, _ in rec.normal_calls) > limit:
+        return "big"
+    tape, rcalls = [], []
+    for (size, r), (loc, scale) in zip(rec.normal_calls, rec.normal_args):
+        if size is None:
+            tape.append(f"DScal {hexf(r)}")
+            rcalls.append(f"({coq_Q(float(loc))}, {coq_Q(float(scale))}, None)")
+        else:
+            tape.append("DVec " + coq_list(hexf(x) for x in np.asarray(r, dtype=float).reshape(-1)))
+            rcalls.append(f"({coq_Q(float(loc))}, {coq_Q(float(scale))}, Some {int(size)}%nat)")
+    val = []
+    for kind, table in (("hyper", model.hyperparameters), ("model", model.parameters)):
+        for k, v in table.items():
+            try:
+                val.append(f"({coq_string(kind)}, {coq_string(str(k))}, {coq_Q(float(v))})")
+            except (TypeError, ValueError, RuntimeError):
+                pass
+    for k, v in d["params"].items():
+        if v[0] in ("int", "float", "bool"):
+            val.append(f"({coq_string('study')}, {coq_string(k)}, {coq_Q(float(v[1]))})")
+    p = expected_precision(d)
+    ids = requested_ids(d)
+    req = {str(k): v for k, v in rec.timepoints.items()}
+    df = res.data.to_dataframe()
+    requested, keys, ages = [], [], []
+    for i in ids:
+        requested.append(f"({coq_string(i)}, {coq_list(hexf(t) for t in req.get(i, []))})")
+        ts = [float(t) for t in df.loc[df["ID"].astype(str) == i, "TIME"].to_numpy(dtype=float)]
+        keys.append(f"({coq_string(i)}, {coq_list(coq_Z(int(round(t * 10 ** p))) for t in ts)})")
+        ages.append(f"({coq_string(i)}, {coq_list(hexf(t) for t in ts)})")
+    ob = (f"{{| ob_precision := {coq_Z(p)}; ob_requested := {coq_list(requested)}; ob_keys := {coq_list(keys)}; "
+          f"ob_ages := {coq_list(ages)}; ob_calls := {coq_list(rcalls)} |}}")
+    return (f"({{| dimension := {shape[0]}; source_dimension := {shape[1]} |}}, {design_coq(d)}, {coq_list(val)}, "
+            f"{coq_list(tape)}, {ob})")
+
+
 def runs(run: Run, thorough: bool):
     models = build_models(run, thorough)
     seeds = [run.seed % 100000, (run.seed // 7) % 100000 + 1] + ([11, 12] if thorough else [])
     out_cases, out_meta = [], []
     row_cases, row_meta, noise, noise_meta, loops, loop_meta = [], [], [], [], [], []
+    gen_cases, gen_meta, gen_big = [], [], 0
     skipped_ties = skipped_big = 0
     for mi, (model, shape, info) in enumerate(models):
         rng = run.rng("designs", mi)
@@ -1078,6 +1155,14 @@ def runs(run: Run, thorough: bool):
                         run.broken("record:draws", "normal draws of _generate_visit_ages could not be attributed", kind="broken-correspondence")
                     else:
                         loops += lc; loop_meta += [inp] * len(lc)
+                gc = generation_case(d, shape, model, res, rec)
+                if gc == "unrecorded":
+                    run.broken("record:generation", "numpy.random.normal calls / _generate_visit_ages were not observed as expected", kind="broken-correspondence")
+                elif gc == "big":
+                    gen_big += 1
+                else:
+                    gen_cases.append(gc); gen_meta.append(inp)
+                    run.count("generation-tape", d["visit_type"])
                 if len(run.samples) < 4 and kind != "directed":
                     run.sample(dict(kind="run", **inp, outcome=o, n_rows=int(len(res.data.to_dataframe())), precision=expected_precision(d)))
         # non-termination: negative mean step (accepted by the constructor)
@@ -1116,6 +1201,12 @@ def runs(run: Run, thorough: bool):
     bad = run.vm_bad_indices("loop", HDR, "Q * Q * list Q * list Q", loops, LOOP_CHECKER, shard=60)
     for i in bad or []:
         run.fail("visit-loop", "generated visit ages differ from the loop model (t0; while t < follow_up: t += step)", dict(loop_meta[i], case=loops[i][:400]))
+    run.log("generation")
+    bad = run.vm_bad_indices("generation", HDR_GEN, GEN_CASE_T, gen_cases, GEN_CHECKER, shard=12)
+    for i in bad or []:
+        run.fail("generation:tape-replay", "the generation model (regenerated program, binary64) re-executed inside Coq on the recorded tape of numpy.random.normal "
+                 "does not reproduce the call: precision, requested ages, returned ages (integers and bits), calls made or draws consumed differ", gen_meta[i])
+    run.extra.update(generation_cases=len(gen_cases), generation_cases_over_700_draws_skipped=gen_big)
     run.extra.update(outcome_cases=len(out_cases), row_cases=len(row_cases), noise_cases=len(noise), loop_cases=len(loops))
 
 
